@@ -9,6 +9,7 @@ import (
 	"path/filepath"
 	"sort"
 	"strings"
+	"sync"
 
 	"golang.org/x/tools/go/packages"
 	"golang.org/x/tools/go/ssa"
@@ -49,6 +50,8 @@ type Verifier struct {
 	tier           string
 	embedded       []string // files embedded by go:embed directives, relative to their package directory
 	embeddedAbs    map[string]string
+	axiomUsed      map[int]bool // axioms that were part of at least one query of this run
+	axiomMu        sync.Mutex
 }
 
 type axiomTerm struct {
@@ -654,6 +657,8 @@ func (v *Verifier) sortOfTypeName(t string) Sort {
 		return SSeqB
 	case "[]int", "[]ref":
 		return SSeqI
+	case "[][]string", "[][][]byte":
+		return SSeqC
 	case "set[string]":
 		return Sort("(Array Bytes Bool)")
 	case "set[int]":
@@ -828,6 +833,12 @@ func (v *Verifier) specDecls(body string) string {
 	sort.Ints(idx)
 	for _, i := range idx {
 		fmt.Fprintf(&b, "(assert %s)\n", v.axiomTerms[i].smt)
+		v.axiomMu.Lock()
+		if v.axiomUsed == nil {
+			v.axiomUsed = map[int]bool{}
+		}
+		v.axiomUsed[i] = true
+		v.axiomMu.Unlock()
 	}
 	return b.String()
 }
